@@ -3,6 +3,7 @@ package c12
 import (
 	"fmt"
 	"regexp"
+	"slices"
 	"sort"
 	"strconv"
 	"strings"
@@ -608,10 +609,20 @@ type sciStats struct {
 }
 
 type sciEntry struct {
-	k    locKey
-	full string
-	bare string
-	old  string
+	k   locKey
+	loc *descriptorpb.SourceCodeInfo_Location
+}
+
+func sameSpan(a, b *descriptorpb.SourceCodeInfo_Location) bool { return slices.Equal(a.Span, b.Span) }
+
+func sameComments(a, b *descriptorpb.SourceCodeInfo_Location) bool {
+	return a.GetLeadingComments() == b.GetLeadingComments() && (a.LeadingComments == nil) == (b.LeadingComments == nil) &&
+		a.GetTrailingComments() == b.GetTrailingComments() && (a.TrailingComments == nil) == (b.TrailingComments == nil) &&
+		slices.Equal(a.LeadingDetachedComments, b.LeadingDetachedComments)
+}
+
+func noComments(a *descriptorpb.SourceCodeInfo_Location) bool {
+	return a.LeadingComments == nil && a.TrailingComments == nil && len(a.LeadingDetachedComments) == 0
 }
 
 // sciIndex is the name-keyed source info of a pristine file (computed once per image).
@@ -624,7 +635,7 @@ func buildSciIndex(orig *descriptorpb.FileDescriptorProto) sciIndex {
 		if !ok {
 			continue
 		}
-		idx[k.Key] = append(idx[k.Key], sciEntry{k, locText(l, true), locText(l, false), fmt.Sprint(l.Path)})
+		idx[k.Key] = append(idx[k.Key], sciEntry{k, l})
 	}
 	return idx
 }
@@ -657,21 +668,21 @@ func checkSourceInfo(orig, act *descriptorpb.FileDescriptorProto, origByKey sciI
 			return &finding{"comments/duplicated/" + declKindOf(k), fmt.Sprintf("%s: more locations for %q than in the original", path, k.Key)}
 		}
 		used[k.Key]++
-		got := locText(l, true)
 		st.Compared++
 		if l.LeadingComments != nil || l.TrailingComments != nil {
 			st.Comments++
 		}
-		if cands[i].old != fmt.Sprint(l.Path) {
+		was := cands[i].loc
+		if !slices.Equal(was.Path, l.Path) {
 			st.Moved++
 		}
-		if got == cands[i].full {
+		if sameSpan(was, l) && sameComments(was, l) {
 			continue
 		}
-		if k.Decl && k.DeclKind == "message" && isShell(k.DeclName) && got == cands[i].bare+`|L=""|T=""|D=[]` {
+		if k.Decl && k.DeclKind == "message" && isShell(k.DeclName) && sameSpan(was, l) && noComments(l) {
 			continue // documented: a message kept only as a namespace loses its comments
 		}
-		return &finding{"comments/changed/" + declKindOf(k), fmt.Sprintf("%s: location of %q: original %s, filtered %s", path, k.Key, cands[i].full, got)}
+		return &finding{"comments/changed/" + declKindOf(k), fmt.Sprintf("%s: location of %q: original %s, filtered %s", path, k.Key, locText(was, true), locText(l, true))}
 	}
 	// completeness: everything that still exists keeps its locations
 	for key, cands := range origByKey {
@@ -707,7 +718,7 @@ func checkSourceInfo(orig, act *descriptorpb.FileDescriptorProto, origByKey sciI
 			}
 		}
 		if used[key] != len(cands) {
-			return &finding{"comments/lost/" + declKindOf(k), fmt.Sprintf("%s: %q survives but %d of its %d source locations are missing from the filtered file (e.g. %s)", path, key, len(cands)-used[key], len(cands), cands[used[key]].full)}
+			return &finding{"comments/lost/" + declKindOf(k), fmt.Sprintf("%s: %q survives but %d of its %d source locations are missing from the filtered file (e.g. %s)", path, key, len(cands)-used[key], len(cands), locText(cands[used[key]].loc, true))}
 		}
 	}
 	return nil
